@@ -400,6 +400,24 @@ impl Check for C10 {
         }
     }
 
+    fn probe_cases(&self) -> Vec<Case> {
+        // open: property=C10 oracle=R2-punctuation-separates lang=fr x_tail="un" y_tail="et neuf"
+        vec![Case {
+            lang: 3,
+            concrete: false,
+            thr: "0".into(),
+            a: String::new(),
+            s: " table window garden. ".into(),
+            b: String::new(),
+            x: "un".into(),
+            p: "? ".into(),
+            y: "vingt et neuf".into(),
+            abort_words: vec![],
+            abort_requests: 0,
+            abort_crash_at: 0,
+        }]
+    }
+
     fn rule(&self) -> String {
         "A run is one session-cut experiment: texts A and B (0-15 pool words each incl. ambiguity triggers, decimals, \
          ordinals, exotic Unicode, varied separators; A biased to end inside in-flight state, B to start with a unit / \
